@@ -150,7 +150,7 @@ func (w *c12World) send() error {
 			return err
 		}
 	} else {
-		c, err := net.DialTimeout("tcp", w.addr, c12Bound)
+		c, err := kit.DialTCP(w.addr, c12Bound)
 		if err != nil {
 			return err
 		}
